@@ -10,6 +10,10 @@ import (
 	"bufio"
 	"encoding/json"
 	"os"
+	"runtime"
+	"time"
+
+	rt "github.com/arnodel/golua/runtime"
 
 	"verif/internal/harness"
 	"verif/internal/progcheck"
@@ -35,7 +39,16 @@ func main() {
 		if err := dec.Decode(&c); err != nil {
 			return
 		}
-		tr := progcheck.RunGolua(c, harness.Opts{CPU: 2_000_000_000})
+		tr := progcheck.RunGolua(c, harness.Opts{CPU: 2_000_000_000, Setup: func(r *rt.Runtime, env *rt.Table, tr *harness.Trace, cn *harness.Canon) {
+			// hostgc(): one full collection by Go's collector (collectgarbage is
+			// not declared CPU-safe and is refused under the runner's limits);
+			// the runtime picks up what became pending before the next continuation
+			r.SetEnvGoFunc(env, "hostgc", func(t *rt.Thread, c *rt.GoCont) (rt.Cont, error) {
+				runtime.GC()
+				time.Sleep(200 * time.Microsecond)
+				return c.Next(), nil
+			}, 0, false).SolemnlyDeclareCompliance(rt.ComplyCpuSafe | rt.ComplyMemSafe | rt.ComplyIoSafe | rt.ComplyTimeSafe)
+		}})
 		enc.Encode(out{Events: tr.EventList, Rets: tr.RetList, Err: tr.ErrTok, CompileErr: tr.CompileErr, Panic: tr.Panic, Killed: tr.Killed})
 		w.Flush()
 	}
